@@ -5,6 +5,9 @@
 import SnowVerif.Model.Builder
 import SnowVerif.Model.Resolvers
 import SnowVerif.Crypto.Real
+import SnowVerif.Spec.Validity
+import SnowVerif.Spec.Handshake
+import SnowVerif.Spec.Patterns
 
 open SnowVerif SnowVerif.Model SnowVerif.Bytes
 
@@ -209,6 +212,105 @@ def primLine (parts : List String) : String :=
            | none => "err Dh")
     | _ => "badop"
 
+
+/-! ### `specvec`: one published test vector executed on the *specification* (`Spec.*`) with the
+    Lean reference primitives. Independent of the model of snow and of snow itself. -/
+
+def optKp (S : Suite) (s : String) : Option Spec.KeyPair :=
+  (optBytes s).map fun k => { priv := k, pub := S.pubOf k }
+
+def specPsks (mods : List Modifier) (s : String) : List (Option Bytes) :=
+  let keys : List Bytes := if s == "none" then [] else (s.splitOn ",").map unhex
+  let slots : List Nat := mods.filterMap fun m => match m with | .psk n => some n | _ => none
+  let pairs := slots.zip keys
+  (List.range 10).map fun i => (pairs.find? (·.1 == i)).map (·.2)
+
+/-- Handshake phase: returns messages consumed, the two final states and the split. -/
+def specHs (S : Suite) (ie re : Spec.KeyPair) :
+    Nat → Nat → Spec.HandshakeState → Spec.HandshakeState → List (Bytes × Bytes) →
+    Except String (Nat × Spec.HandshakeState × Spec.HandshakeState × Option (Spec.CipherState × Spec.CipherState))
+  | 0, _, _, _, _ => .error "fuel"
+  | fuel + 1, i, hi, hr, msgs =>
+    if hi.msgs.isEmpty then .ok (i, hi, hr, none) else
+    match msgs with
+    | [] => .error s!"vector ends before the handshake does (message {i})"
+    | (pl, ct) :: rest =>
+      let iSends := i % 2 == 0
+      let w := if iSends then hi else hr
+      let r := if iSends then hr else hi
+      match Spec.HandshakeState.writeMessage S w pl (if iSends then ie else re) with
+      | none => .error s!"spec WriteMessage undefined at message {i}"
+      | some (out, w', sp) =>
+        if out != ct then .error s!"message {i}: spec writes {hex out}, vector has {hex ct}" else
+        match Spec.HandshakeState.readMessage S r ct with
+        | none => .error s!"spec ReadMessage undefined at message {i}"
+        | some (pl', r', sp') =>
+          if pl' != pl then .error s!"message {i}: spec reads {hex pl'}, vector has {hex pl}" else
+          if sp != sp' then .error s!"message {i}: the two parties split differently" else
+          let hi' := if iSends then w' else r'
+          let hr' := if iSends then r' else w'
+          match sp with
+          | some pr => .ok (i + 1, hi', hr', some pr)
+          | none => specHs S ie re fuel (i + 1) hi' hr' rest
+
+def specTransport (S : Suite) (oneway : Bool) :
+    Nat → Spec.CipherState → Spec.CipherState → List (Bytes × Bytes) → Except String Nat
+  | i, _, _, [] => .ok i
+  | i, c1, c2, (pl, ct) :: rest =>
+    let iSends := oneway || i % 2 == 0
+    let c := if iSends then c1 else c2
+    let (out, c') := Spec.CipherState.encryptWithAd S c [] pl
+    if out != ct then .error s!"transport message {i}: spec writes {hex out}, vector has {hex ct}" else
+    match Spec.CipherState.decryptWithAd S c [] ct with
+    | none => .error s!"transport message {i}: spec DecryptWithAd fails"
+    | some (pl', _) =>
+      if pl' != pl then .error s!"transport message {i}: spec reads {hex pl'}" else
+      if iSends then specTransport S oneway (i + 1) c' c2 rest else specTransport S oneway (i + 1) c1 c' rest
+
+def specVec (parts : List String) : String :=
+  let g := kv parts
+  let d := Real.dhImpl .default (dhSel (if g "dh" == "25519" then "Curve25519" else g "dh"))
+  let cname := g "cipher"
+  let c := Real.cipherImpl .default (if cname == "ChaChaPoly" then 0 else if cname == "XChaChaPoly" then 1 else 2)
+  let hname := g "hash"
+  let h := Real.hashImpl .default
+    (if hname == "SHA256" then 0 else if hname == "SHA512" then 1 else if hname == "BLAKE2s" then 2 else 3)
+  let S := Real.mkSuite d .default c h
+  let mods := parseMods (g "mods")
+  match Spec.pattern (g "pat") with
+  | none => s!"skip unknown pattern {g "pat"}"
+  | some base =>
+    match Spec.applyModifiers base mods with
+    | none => "skip modifiers have no place"
+    | some inst =>
+      let isPsk := mods.any fun m => match m with | .psk _ => true | _ => false
+      let name := unhex (g "name")
+      let pro (k : String) : Bytes := if g k == "-" then [] else unhex (g k)
+      let hi := Spec.HandshakeState.init S name (pro "ipro") inst isPsk true (optKp S (g "is")) none
+        (optBytes (g "irs")) none (specPsks mods (g "ipsks"))
+      let hr := Spec.HandshakeState.init S name (pro "rpro") inst isPsk false (optKp S (g "rs")) none
+        (optBytes (g "rrs")) none (specPsks mods (g "rpsks"))
+      match hi, hr with
+      | some hi, some hr =>
+        let msgs : List (Bytes × Bytes) := ((g "msgs").splitOn ";").map fun m =>
+          match m.splitOn ":" with
+          | [a, b] => ((if a == "-" then [] else unhex a), (if b == "-" then [] else unhex b))
+          | _ => ([], [])
+        let ie := (optKp S (g "ie")).getD ⟨[], []⟩
+        let re := (optKp S (g "re")).getD ⟨[], []⟩
+        match specHs S ie re 16 0 hi hr msgs with
+        | .error e => s!"mismatch {e}"
+        | .ok (n, hi', hr', sp) =>
+          match sp with
+          | none => "mismatch handshake did not split"
+          | some (c1, c2) =>
+            if hi'.ss.h != hr'.ss.h then "mismatch parties disagree on h" else
+            if g "hh" != "none" && hex hi'.ss.h != g "hh" then s!"mismatch handshake hash {hex hi'.ss.h}" else
+            match specTransport S (inst.msgs.length == 1) n c1 c2 (msgs.drop n) with
+            | .error e => s!"mismatch {e}"
+            | .ok total => s!"ok messages={total} hs={n} hh={if g "hh" == "none" then "absent" else "checked"}"
+      | _, _ => "mismatch Initialize undefined (pre-message key missing)"
+
 /-- Execute one operation line. -/
 def step (st : St) (line : String) : St × String :=
   let parts := line.splitOn " "
@@ -356,6 +458,7 @@ def step (st : St) (line : String) : St × String :=
      | some e => (st, resolveLine e (arg 2) (arg 3))
      | none => (st, "badexpr"))
   | "prim" => (st, primLine parts)
+  | "specvec" => (st, specVec parts)
   | _ => (st, "badop")
 
 partial def loop (h : IO.FS.Stream) (out : IO.FS.Stream) (st : St) : IO Unit := do
